@@ -224,7 +224,8 @@ def run_ctl (scn, schedule, policy, seed):
       con.send = spy
       of_01.Connection.__init__(con, s)
       del con.send
-      con.dpid = 100 + ci
+      # (datapath id 0 is an id like any other)
+      con.dpid = 0 if (scn.get("dpid0") and ci == 0) else 100 + ci
       con.ofnexus = obs["nexus"]
       def down (e, ci=ci, con=con):
         obs["con_downs"][ci] += 1
@@ -473,6 +474,7 @@ def gen_ctl_random (rng, n):
       scripts.append(sc)
     scn = dict(ncons=ncons, program=prog, scripts=scripts)
     if rng.random() < 0.25: scn["reclose"] = rng.choice(["con", "nexus"])
+    if rng.random() < 0.3: scn["dpid0"] = True
     yield scn
 
 
@@ -501,6 +503,8 @@ CTL_DFS = [
   # ConnectionDown listeners that disconnect the connection once more
   dict(ncons=1, program=[["send", 0, 20], ["send", 0, 30], ["close", 0]],
        scripts=[["all", 5, "fatal"]], reclose="con"),
+  dict(ncons=1, program=[["send", 0, 20], ["send", 0, 30], ["send", 0, 9]],
+       scripts=[["all", 5, "fatal:EPIPE"]], dpid0=True),
   dict(ncons=2, program=[["send", 0, 20], ["send", 1, 30], ["send", 0, 9], ["close", 0],
                          ["send", 1, 12]],
        scripts=[["all", 5, "fatal:EPIPE"], ["all", 0, 7]], reclose="nexus"),
